@@ -1,8 +1,10 @@
 (* C13 — Both stores behave as isolated per-agent, per-item value/map storage.
-   Property theorems only (Proofs/StoresProofs.v).  These are the byte-level and allocation facts
-   on which the RocksDB back-end's isolation rests; the end-to-end refinement of both back-ends to
-   the specification [spec_step] is checked by correspondence + oracle on every run (partial). *)
-From SwimV Require Import Model.Stores Proofs.StoresProofs.
+   Property theorems only (Proofs/StoresProofs.v, Proofs/StoresMapProofs.v).  These are the byte-level and
+   allocation facts on which the RocksDB back-end's isolation rests, and the map keyspace read as a map per
+   lane (what a reader finds for a key is what the last update / remove / clear of that lane left there;
+   read_map lists exactly those entries in key order); the refinement of both back-ends, names and kinds
+   included, to the specification [spec_step] is checked by correspondence + oracle on every run (partial). *)
+From SwimV Require Import Model.Stores Proofs.StoresProofs Proofs.StoresMapProofs.
 Open Scope N_scope.
 
 (* store keys are injective in (lane id, key) for keys of every length *)
@@ -69,3 +71,45 @@ Proof. exact ids_never_collide. Qed.
 Theorem C13_F1_name_not_injective_refuted :
   exists a n a' n', (a, n) <> (a', n') /\ lane_name a n = lane_name a' n'.
 Proof. exists [47; 97], [98; 47; 99], [47; 97; 47; 98], [99]. split; [discriminate|reflexivity]. Qed.
+
+(* ---- the map keyspace as a map per lane (Proofs/StoresMapProofs.v) ---- *)
+(* [WF ks]: every key is the map key of some lane with a 56-bit id and occurs once - kept by the three operations *)
+Theorem C13_wf_kept : forall ks id k v, WF ks -> U56 id ->
+  WF (bput (ser_map_key id k) v ks) /\ WF (bdel (ser_map_key id k) ks)
+  /\ WF (delete_range ks (ser_map_prefix id) (ser_map_ubound id)).
+Proof. intros ks id k v H Hid. split; [now apply wf_update|]. split; [now apply wf_remove|now apply wf_clear]. Qed.
+
+(* what the prefix scan of a lane finds for a key is what a point lookup of the full store key finds *)
+Theorem C13_scan_lookup_is_point_lookup : forall ks id k, wf_map_ks ks -> U56 id ->
+  bget k (view ks id) = bget (ser_map_key id k) ks.
+Proof. exact view_lookup_is_point_lookup. Qed.
+
+(* an update sets the key and nothing else of the lane, a remove unsets it and nothing else, a clear unsets all *)
+Theorem C13_update_sets_the_key : forall ks id k v k', WF ks -> U56 id ->
+  bget k' (view (bput (ser_map_key id k) v ks) id) = if bytes_eqb k' k then Some v else bget k' (view ks id).
+Proof. exact update_sets_the_key. Qed.
+
+Theorem C13_remove_unsets_the_key : forall ks id k k', WF ks -> U56 id ->
+  bget k' (view (bdel (ser_map_key id k) ks) id) = if bytes_eqb k' k then None else bget k' (view ks id).
+Proof. exact remove_unsets_the_key. Qed.
+
+Theorem C13_clear_unsets_every_key : forall ks id k', WF ks -> U56 id ->
+  bget k' (view (delete_range ks (ser_map_prefix id) (ser_map_ubound id)) id) = None.
+Proof. exact clear_unsets_every_key. Qed.
+
+(* read_map lists (k, v) exactly if the lane holds v at k, and in increasing key order *)
+Theorem C13_read_map_lists_the_lane : forall ks id k v, WF ks -> U56 id ->
+  In (k, v) (sort_kv (view ks id)) <-> bget (ser_map_key id k) ks = Some v.
+Proof. exact read_map_lists_the_lane. Qed.
+
+Theorem C13_read_map_is_sorted : forall l, sorted_keys (sort_kv l).
+Proof. exact read_map_is_sorted. Qed.
+
+(* the premises are met: a store with two lanes *)
+Theorem C13_map_witness :
+  let ks := bput (ser_map_key 2 [7]) [9] (bput (ser_map_key 1 [7]) [8] []) in
+  WF ks /\ sort_kv (view ks 1) = [([7], [8])] /\ sort_kv (view ks 2) = [([7], [9])].
+Proof.
+  split; [|split; vm_compute; reflexivity].
+  apply wf_update; [apply wf_update; [split; constructor|]|]; unfold U56; reflexivity.
+Qed.
